@@ -41,6 +41,15 @@ def one_trace(rng, tid, prop, sweep=None):
     reset_options()
     rec = Recorder(tid, prop)
     mode = rng.choice(["sweep", "pairs", "pairs", "tuples", "tuples"])
+    if rng.random() < 0.15:
+        # exponents nothing can represent: an error is the only right answer
+        for _ in range(3):
+            e = rng.choice([-1, -5, 2 ** 32 + 5, 2 ** 32, 2 ** 32 - 1, 2 ** 32 - 59, 2 ** 33 + 7, 2 ** 63, 2 ** 64 + 1])
+            row = [e] if rng.random() < 0.6 else [1, e]
+            clamp = [-1 if x < 0 else min(x, 2 ** 30) for x in row]
+            rec.do("from_attributes", [], keep=False, rows=[clamp], raw_rows=[[str(x) for x in row]], coefs=[[num(4)]], shape=[],
+                   names=list(range(len(row))), rc=rng.choice(["none", "true"]), rn="true",
+                   via=rng.choice(["function", "classmethod"]), dtype="int64", bigexp=2 ** 30)
     if mode == "sweep":
         for _ in range(6):
             e = sweep if sweep is not None else rng.choice([rng.randint(0, 300), rng.randint(0, 54999), rng.randint(54000, 58000)])
